@@ -14,7 +14,7 @@ class C09(EngineProp):
                   'continuation: in-flight frames, loss, anything), c09_peer_cancel_stops_producer (publisher subscription / handler future cancelled, stream unregistered), c09_late_frames_dropped, '
                   'c09_cancel_is_local, c09_peer_cancel_is_local; on the credit model of the library sources: c09_source_cancel_stops_production (nothing more delivered or taken from the generator '
                   'after cancel(), for every schedule). Correspondence: cancellation-heavy scripts against the real endpoint (event-level), the four library sources driven directly with cancel at any '
-                  'point, and CANCEL injected on the wire 0..5 ticks after the request.')
+                  'point, CANCEL injected on the wire 0..5 ticks after the request, and Rx / ReactiveX result observables disposed at any moment incl. the subscribing loop iteration.')
     level_note = 'Trusted: as C07; generator close() semantics of CPython for the library sources.'
     design_ref = '§5 C09'
     rule = 'as C07 with cancellation-heavy scripts: cancel injected at any position incl. "request and cancel in one read", "cancel racing completion", "response racing cancel"'
@@ -33,6 +33,13 @@ class C09(EngineProp):
             steps.append(['x'])      # (a subscriber does not request after it cancelled: reactive-streams rule 3.6)
             out.append({'mode': 'source', 'role': 'server', 'profile': 'source-cancel', 'kind': kind, 'count': rng.choice([0, 2, 6]),
                         'flagged': rng.random() < 0.4 and kind in ('gen', 'agen'), 'failing': False, 'steps': steps})
+        # disposing an Rx / ReactiveX result observable is a cancellation too (rsocket/reactivex, rsocket/rx_support: from_rsocket_publisher)
+        for _ in range(n // 3):
+            count = rng.choice([0, 1, 2, 5])
+            c20 = {'ver': rng.choice(['rx3', 'rx4']), 'kind': 'cstream', 'limit': rng.choice([1, 2, 3, 2 ** 31 - 1]), 'count': count,
+                   'end': rng.choice(['complete', 'flag', 'error'] if count else ['complete', 'error']), 'burst': rng.choice([1, 2, 5]),
+                   'dispose_after': rng.randint(0, max(0, count)), 'channel': rng.random() < 0.3, 'dispose_now': rng.random() < 0.4}
+            out.append({'mode': 'rx-dispose', 'role': 'client', 'profile': 'rx-dispose', 'kind': c20['ver'], 'c20': c20})
         for _ in range(n // 2):
             out.append({'mode': 'wire-cancel', 'role': 'server', 'profile': 'source-cancel', 'kind': rng.choice(sources.KINDS), 'count': rng.choice([0, 3, 6]),
                         'channel': rng.random() < 0.4, 'n0': rng.choice([1, 2, 5]), 'ticks': rng.choice([0, 0, 1, 2, 5])})
@@ -44,6 +51,9 @@ class C09(EngineProp):
             return detloop.run(sources.drive, case)
         if case.get('mode') == 'wire-cancel':
             return detloop.run(self._wire_cancel, case)
+        if case.get('mode') == 'rx-dispose':
+            from harness.props import c20
+            return c20.PROP.run_impl(case['c20'])
         return super().run_impl(case)
 
     async def _wire_cancel(self, loop, case):
@@ -82,23 +92,23 @@ class C09(EngineProp):
         return res
 
     def model_lines(self, case, obs):
-        if case.get('mode') in ('source', 'wire-cancel'):
+        if case.get('mode') in ('source', 'wire-cancel', 'rx-dispose'):
             return []
         return super().model_lines(case, obs)
 
     def compare(self, case, obs, answers):
-        if case.get('mode') in ('source', 'wire-cancel'):
+        if case.get('mode') in ('source', 'wire-cancel', 'rx-dispose'):
             return None
         return super().compare(case, obs, answers)
 
     def nontrivial(self, case, obs):
-        if case.get('mode') in ('source', 'wire-cancel'):
+        if case.get('mode') in ('source', 'wire-cancel', 'rx-dispose'):
             import json
             return json.dumps(case, sort_keys=True)
         return super().nontrivial(case, obs)
 
     def stats(self, case, obs):
-        if case.get('mode') in ('source', 'wire-cancel'):
+        if case.get('mode') in ('source', 'wire-cancel', 'rx-dispose'):
             yield 'mode=' + case['mode']
             yield 'kind=' + case['kind']
             return
@@ -115,11 +125,16 @@ class C09(EngineProp):
             if case['ticks']:
                 yield dict(case, ticks=case['ticks'] - 1)
             return
+        if case.get('mode') == 'rx-dispose':
+            return
         yield from super().shrink_candidates(case)
 
     def _source_oracle(self, case, obs):
         fails = []
         k = case['kind']
+        if case['mode'] == 'rx-dispose':
+            from harness.props import c20
+            return [f for f in c20.PROP.oracle(case['c20'], obs) if f['signature'].split(':')[0] in ('dispose-does-not-cancel', 'signals-after-dispose')]
         if case['mode'] == 'source':
             if obs['errors']:
                 fails.append({'signature': 'source-cancel-raises:' + k, 'what': 'cancel() on the %s source raised: %s (steps %s)' % (k, obs['errors'], case['steps'])})
@@ -144,7 +159,7 @@ class C09(EngineProp):
         return fails
 
     def oracle(self, case, obs):
-        if case.get('mode') in ('source', 'wire-cancel'):
+        if case.get('mode') in ('source', 'wire-cancel', 'rx-dispose'):
             return self._source_oracle(case, obs)
         fails = []
         steps = obs['steps']
